@@ -53,6 +53,21 @@ func c05RandomOp(s *Sess, b string, keys []string, rng *Rng) {
 		s.MultiDelete(b, ks)
 	case w < 67:
 		s.Get(b, k, "")
+	case w < 71:
+		// a copy is an upload like any other: a new version, the earlier ones stay what they are (onto itself
+		// with new metadata — the way to change metadata in place —, with and without the REPLACE directive)
+		m := []KV{{"X-Amz-Meta-N", fmt.Sprintf("copy-%d", s.nops)}}
+		if rng.Bool() {
+			m = append(m, KV{"X-Amz-Metadata-Directive", "REPLACE"})
+		}
+		if rng.Intn(3) == 0 {
+			m = nil
+		}
+		dst := k
+		if rng.Intn(3) == 0 {
+			dst = keys[rng.Intn(len(keys))]
+		}
+		s.CopyWith(b, k, b, dst, m)
 	case w < 80:
 		s.Get(b, k, pickVid())
 	case w < 88:
